@@ -269,6 +269,28 @@ func init() {
 	reg("(*bytes.Buffer).Read", read)
 	reg("(*bytes.Reader).Read", read)
 	reg("(*strings.Reader).Read", read)
+	reg("(*bytes.Reader).Reset", func(g *G, fr *Frame, fn *ssa.Function, a []Value) Value {
+		ptr, _ := a[0].(*Value)
+		if ptr == nil {
+			g.goPanic("runtime error: invalid memory address or nil pointer dereference")
+		}
+		st := (*ptr).(Struct)
+		st[0] = a[1]
+		return nil
+	})
+	reg("(*strings.Reader).Reset", func(g *G, fr *Frame, fn *ssa.Function, a []Value) Value {
+		ptr, _ := a[0].(*Value)
+		if ptr == nil {
+			g.goPanic("runtime error: invalid memory address or nil pointer dereference")
+		}
+		st := (*ptr).(Struct)
+		st[0] = g.strToBytes(a[1].(Str))
+		return nil
+	})
+	reg("(*strings.Reader).Len", func(g *G, fr *Frame, fn *ssa.Function, a []Value) Value {
+		_, cur := bufContent(g, a[0])
+		return cur.Len(g)
+	})
 	reg("(*bytes.Reader).Len", func(g *G, fr *Frame, fn *ssa.Function, a []Value) Value {
 		_, cur := bufContent(g, a[0])
 		return cur.Len(g)
